@@ -490,6 +490,58 @@ func ruleLegacyMatch(c *Ctx, r *Rule) {
 			}
 		}
 		r.Ob(nEarly >= 1 && nEnd == 1, name+"|shape", fn.Pos(), fmt.Sprintf("%d deciding returns and %d final return", nEarly, nEnd))
+		// a condition is ONE test — a regexp, or a value list. In and-mode a condition whose regexp matched is
+		// satisfied: from there no 'false' may be reached before the next condition is taken up (a regexp
+		// condition has no value list, so re-judging it by the list makes and-mode regexp conditions unmatchable)
+		if !early {
+			for _, b := range fn.Blocks {
+				iff, ok := b.Instrs[len(b.Instrs)-1].(*ssa.If)
+				if !ok {
+					continue
+				}
+				v, pol := peelNot(iff.Cond, true)
+				call, isCall := v.(*ssa.Call)
+				if !isCall || call.Call.StaticCallee() == nil || call.Call.StaticCallee().Name() != "MatchString" {
+					continue
+				}
+				succ := b.Succs[0]
+				if !pol {
+					succ = b.Succs[1]
+				}
+				if len(succ.Instrs) == 0 {
+					continue
+				}
+				// the next condition starts at the loop head
+				var head0 *ssa.BasicBlock
+				for _, hb := range fn.Blocks {
+					for _, p := range hb.Preds {
+						if isBackEdge(p, hb) {
+							head0 = hb
+						}
+					}
+				}
+				isFalseRet := func(in ssa.Instruction) bool {
+					ret, isRet := in.(*ssa.Return)
+					if !isRet {
+						return false
+					}
+					k, isK := constBool(retResults(ret)[0])
+					return isK && !k
+				}
+				atHead := func(in ssa.Instruction) bool { return head0 != nil && in.Block() == head0 }
+				bad, at := false, ssa.Instruction(nil)
+				if isFalseRet(succ.Instrs[0]) {
+					bad, at = true, succ.Instrs[0]
+				} else {
+					bad, at = c.pathExists(fn, succ.Instrs[0], isFalseRet, atHead)
+				}
+				msg := "a condition whose regexp matched is satisfied"
+				if bad {
+					msg = "after a condition's regexp matched, 'false' can still be returned for the same condition at " + c.pos(at.Pos()) + " (its empty value list is consulted): a regexp condition can never hold in and-mode"
+				}
+				r.Ob(!bad, name+"|matched-regexp-satisfies", call.Pos(), msg)
+			}
+		}
 		// every condition is examined: the loop over the conditions is left from its body only by a deciding return
 		var head *ssa.BasicBlock
 		for _, b := range fn.Blocks {
